@@ -1451,8 +1451,15 @@ hdf_read_attrs(XDR *xdrs, NC *handle, int32 vg)
                     HGOTO_FAIL(NULL);
 
                 if (type == NC_CHAR) {
-                    if ((attr_size = VFfieldorder(vs, 0)) == FAIL)
+                    int32 order;
+
+                    if ((order = VFfieldorder(vs, 0)) == FAIL)
                         HGOTO_FAIL(NULL);
+
+                    /* DFNT_CHAR attributes are stored as one record of 'count' characters,
+                       DFNT_UCHAR ones as 'count' records of one character: either way the
+                       number of values is records * order */
+                    attr_size *= order;
 
                     ((char *)values)[attr_size] = '\0';
                 }
